@@ -152,8 +152,13 @@ class Module:
 
 
 def walk_local(func: ast.AST) -> Iterator[ast.AST]:
-    """Walk a function body without descending into nested defs/lambdas/classes."""
-    stack = list(ast.iter_child_nodes(func))
+    """Walk a function body without descending into nested defs/lambdas/classes.
+    For a function root only the body is walked: decorators, defaults and annotations are
+    evaluated at definition time, in the enclosing scope."""
+    if isinstance(func, (ast.FunctionDef, ast.AsyncFunctionDef)):
+        stack: list[ast.AST] = list(func.body)
+    else:
+        stack = list(ast.iter_child_nodes(func))
     while stack:
         n = stack.pop()
         yield n
